@@ -29,6 +29,17 @@ Eval(e, val) ==
                            [] e.op = "/" -> a \div b
                            [] e.op = "%" -> a % b
 
+\* boolean structure over index expressions (procedure assertions): comparisons, and, or, boolean constants
+RECURSIVE EvalB(_, _)
+EvalB(b, val) ==
+  CASE b.k = "cb" -> b.v
+    [] b.k = "cmp" -> LET x == Eval(b.l, val)
+                          y == Eval(b.r, val)
+                      IN CASE b.op = "<" -> x < y [] b.op = ">" -> x > y [] b.op = "<=" -> x <= y
+                           [] b.op = ">=" -> x >= y [] b.op = "==" -> x = y
+    [] b.k = "and" -> EvalB(b.l, val) /\ EvalB(b.r, val)
+    [] b.k = "or" -> EvalB(b.l, val) \/ EvalB(b.r, val)
+
 \* env: seq of [n, haslo, lo, hashi, hi]; W: half-width of the window explored for unknown ends
 Vals(env, W) ==
   LET names == {env[j].n : j \in 1..Len(env)}
@@ -51,6 +62,11 @@ Bad(c) ==
               b == Eval(c.base, val)
           IN ~((c.haslo => b + c.lo <= x) /\ (c.hashi => x <= b + c.hi))
      ELSE IF c.kind = "eq" THEN Eval(c.e, val) # Eval(c.e2, val)
+     \* kind "argrange": the range claimed for a procedure argument must contain every value of that argument in
+     \* every valuation of the arguments that satisfies the procedure's assertions (c.preds)
+     ELSE IF c.kind = "argrange"
+     THEN /\ \A j \in 1..Len(c.preds) : EvalB(c.preds[j], val)
+          /\ ~((c.haslo => c.lo <= Eval(c.e, val)) /\ (c.hashi => Eval(c.e, val) <= c.hi))
      ELSE FALSE}
 Holds(c) == Bad(c) = {}
 Census == PrintT(ToJson([c |-> cid, ok |-> Holds(Claims[cid]),
